@@ -7,6 +7,12 @@ import (
 	"strings"
 )
 
+// RegexUse records one membership test against a package-level regexp variable.
+type RegexUse struct {
+	Var, Pkg, PkgName string
+	Arg, Match        string
+}
+
 // Obligation is one proof obligation: facts[:NFacts] ⊢ Cond ⇒ Goal.
 type Obligation struct {
 	Name   string   // stable name: <func>#<kind>:<label>
@@ -45,6 +51,8 @@ type VC struct {
 	curPos  token.Position
 	tags    []string
 	tagsFn  []string
+	Replay  *ReplayCtx
+	RegexUses []RegexUse // matches(x, regexVar) occurrences (for replaying language lemmas)
 	pureTerm map[string]string
 	axioms  []string
 }
